@@ -26,6 +26,28 @@ import icontract._recompute  # noqa: E402
 PRELUDE = '''import icontract
 
 
+class ArrayLike:
+    """As a numpy array: == is element-wise and its result has no truth value.  One lives among the globals of the
+    module that declares the contracts; no condition uses it - it must not matter to anybody."""
+
+    def __init__(self, xs):
+        self.xs = list(xs)
+
+    def __eq__(self, other):
+        return ArrayLike([x == other for x in self.xs])
+
+    def __ne__(self, other):
+        return ArrayLike([x != other for x in self.xs])
+
+    __hash__ = None
+
+    def __bool__(self):
+        raise ValueError("The truth value of an array with more than one element is ambiguous.")
+
+
+ICV_BYSTANDER = ArrayLike([1, 2, 3])
+
+
 class Rec:
     def __init__(self, tag, fields):
         self._tag = tag
